@@ -151,6 +151,26 @@ func render(comp templ.Component, rs *interp.RenderState, plan interp.Plan, sw b
 	return outcome{sink: string(fw.Buf), err: err, class: class, fired: fw.Dead, flushes: fw.Flushes, rs: *rs, events: rec.Take()}
 }
 
+// referenceDoc is the full document of a program on the real code: a fault-free render through a private
+// *runtime.Buffer (GetBuffer finds an existing buffer, so neither pool is involved).
+func referenceDoc(comp templ.Component, rs *interp.RenderState) (string, error) {
+	none := interp.Plan{}
+	none.W.K, none.W.M, none.L.K = -1, "none", "none"
+	rs.Reset(none, nil)
+	var sb strings.Builder
+	b := &templruntime.Buffer{}
+	b.Reset(&sb)
+	rec.On = false
+	defer func() { rec.On = true }()
+	if err := comp.Render(context.Background(), b); err != nil {
+		return "", err
+	}
+	if err := b.Flush(); err != nil {
+		return "", err
+	}
+	return sb.String(), nil
+}
+
 func poolEvents(ev []interp.Event) []string {
 	var out []string
 	for _, e := range ev {
@@ -190,8 +210,7 @@ func eqInts(a, b []int) bool {
 
 // check compares one real render with the property (violations) and with the model's prediction (drift).
 // afterFailure: an earlier render of this sequence failed (attribution of carry-over).
-func check(c *caseT, seq []string, idx int, exp runExp, o outcome, afterFailure bool) {
-	doc := strings.Join(c.Doc, "")
+func check(c *caseT, doc string, modelOK bool, seq []string, idx int, exp runExp, o outcome, afterFailure bool) {
 	want := strings.Join(exp.Sink, "")
 	rep := report{Cap: c.Cap, SW: c.SW, Prog: progString(c.Prog), Doc: doc, Sequence: seq, Render: idx + 1,
 		Plan: planString(exp.Plan), Got: o.sink, GotErr: fmt.Sprint(o.err), Want: want, WantErr: exp.Res}
@@ -270,13 +289,16 @@ func check(c *caseT, seq []string, idx int, exp runExp, o outcome, afterFailure 
 			}
 		}
 	}
-	if !violated && o.rs.Evals > exp.Evals {
+	if !violated && modelOK && o.rs.Evals > exp.Evals {
 		violated = true
 		fail("FailStop.EvalAfterError", "an expression was evaluated after an error had been returned to the generated code",
 			fmt.Sprintf("evaluations: real %d, specification %d", o.rs.Evals, exp.Evals))
 	}
 	if violated {
 		return
+	}
+	if !modelOK {
+		return // the model's document for this program differs from the real one: reported once per program
 	}
 	// model-level comparison: exact prediction
 	var d []string
@@ -408,6 +430,20 @@ func cases(args []string) {
 			vhlib.Fatal("%v", err)
 		}
 		comp := interp.Interp(items)
+		doc, rerr := referenceDoc(comp, rs)
+		modelDoc := strings.Join(g[0].Doc, "")
+		if rerr != nil {
+			stats["fails"]++
+			vhlib.Fail("NoFaultMeansNil", "the program does not render without a fault", map[string]any{"program": progString(g[0].Prog), "error": rerr.Error()})
+			doc = modelDoc
+		}
+		modelOK := doc == modelDoc
+		if !modelOK {
+			stats["drift"]++
+			stats["doc_drift_programs"]++
+			vhlib.Drift("the full document of a program differs from the model's denotation (children/slot semantics); "+
+				"the property is checked against the real fault-free document", map[string]any{"program": progString(g[0].Prog), "real": doc, "model": modelDoc})
+		}
 		none := interp.Plan{}
 		none.W.K, none.W.M, none.L.K = -1, "none", "none"
 		for i, c := range g {
@@ -436,7 +472,7 @@ func cases(args []string) {
 					// fault-free case; compare the property and the bytes only
 					e.UF, e.Pev = o.flushes, poolEvents(o.events)
 				}
-				check(c, seq, j, e, o, failedBefore)
+				check(c, doc, modelOK, seq, j, e, o, failedBefore)
 				if o.err != nil {
 					failedBefore = true
 				}
@@ -455,7 +491,7 @@ func cases(args []string) {
 	}
 	traceOut.Close()
 	vhlib.Summary(map[string]any{"cases": ncases, "programs": len(order), "renders": stats["renders"], "fails": stats["fails"],
-		"drift": stats["drift"], "trace_events": traceN, "hook_calls": interp.HooksFired(), "plan_kinds": kinds})
+		"drift": stats["drift"], "doc_drift_programs": stats["doc_drift_programs"], "trace_events": traceN, "hook_calls": interp.HooksFired(), "plan_kinds": kinds})
 }
 
 // ---------------------------------------------------------------------------------------------
